@@ -12,7 +12,7 @@ namespace plan
       return;
     ctor_params(m, m.classes[c].super, out);
     for (size_t i = 0; i < m.classes[c].rfields.size(); ++i)
-      if (m.classes[c].rmode(i) != 2)
+      if (m.classes[c].rmode(i) < 2)
         out.push_back({"real", "p_" + m.classes[c].rfields[i]});
     if (m.classes[c].ofield_class >= 0)
       out.push_back({m.classes[m.classes[c].ofield_class].name, "p_g" + std::to_string(c)});
@@ -27,7 +27,7 @@ namespace plan
     for (size_t i = 0; i < m.classes[c].rfields.size(); ++i)
     {
       const mpq_class &v = in.rargs[ri++];
-      if (m.classes[c].rmode(i) != 2)
+      if (m.classes[c].rmode(i) < 2)
         out.push_back((sgn(v) < 0 ? "-" : "") + qtext(v));
     }
     if (m.classes[c].ofield_class >= 0)
@@ -482,7 +482,7 @@ namespace plan
         if (pinned)
           arg("start", 0);
         arg("duration", 4);
-        m.mentioned.insert(scope);
+        m.mention_root(scope);
         Stmt st;
         st.k = Stmt::FORMULA;
         st.item = it;
@@ -552,6 +552,8 @@ namespace plan
       std::string s = ind + "predicate " + p.name + "(";
       for (size_t i = p.own_from; i < p.rparams.size(); ++i)
         s += (i > p.own_from ? ", " : "") + std::string("real ") + p.rparams[i];
+      if (!p.oparam.empty())
+        s += std::string(p.rparams.size() > p.own_from ? ", " : "") + m.classes[p.oparam_cls].name + " " + p.oparam;
       s += ")";
       const bool in_sv = p.cls >= 0 && m.classes[p.cls].is_sv && !m.classes[p.cls].is_agent;
       if (p.super >= 0)
@@ -576,7 +578,7 @@ namespace plan
       }
       d += "class " + c.name + (c.super >= 0 ? " : " + m.classes[c.super].name + (c.super2 >= 0 ? ", " + m.classes[c.super2].name : "") : (c.super2 >= 0 ? " : " + m.classes[c.super2].name : "")) + " {\n";
       for (size_t i = 0; i < c.rfields.size(); ++i)
-        d += "  real " + c.rfields[i] + (c.rmode(i) ? " = " + qtext(c.rfield_default(i)) : std::string()) + ";\n";
+        d += "  real " + c.rfields[i] + (c.rmode(i) == 1 || c.rmode(i) == 2 ? " = " + qtext(c.rfield_default(i)) : std::string()) + ";\n";
       if (c.ofield_class >= 0)
         d += "  " + m.classes[c.ofield_class].name + " g" + std::to_string(ci) + ";\n";
       if (c.ofield_class >= 0 && c.ofield_twice)
@@ -599,7 +601,7 @@ namespace plan
         il += ")";
       }
       for (size_t i = 0; i < c.rfields.size(); ++i)
-        if (c.rmode(i) != 2)
+        if (c.rmode(i) < 2)
           il += (il.empty() ? "" : ", ") + c.rfields[i] + "(p_" + c.rfields[i] + ")";
       if (c.ofield_class >= 0)
         il += (il.empty() ? "" : ", ") + std::string("g") + std::to_string(ci) + "(p_g" + std::to_string(ci) + ")";
